@@ -1,12 +1,13 @@
 --------------------------- MODULE TraceBtcCoins ---------------------------
 (* C26, code -> spec.  The driver records, per call on the real code, one event with inputs and result:
-     reset  [ops, vals]                      a fresh UTXO set (outpoints interned to 1..MaxOp by the driver)
+     reset  [ops, vals]                      a fresh UTXO set; an outpoint is [txid number, output index] (txids numbered by the driver
+                                             in order of first appearance; several outpoints share a txid)
      dep    [o, v]                           one more unspent outpoint
      w      [via, target, mc, res, sel, sum, fee, change, insum, outsum, utxo2, stxo2]
             via "choose" (chooseUtxos), "maketx" (makeBtcTx: sel/change/insum/outsum are read from the stored unsigned
             transaction; the reported total is observed as sum = payment + change output, because makeBtcTx writes
             change = total - payment and takes the fee out of the payment output) or "select" (CoinSelector alone);
-            sel = selected outpoints in the order returned (0 = not an outpoint the driver created), sum/fee as reported,
+            sel = selected outpoints in the order returned ([0,0] = not an outpoint the driver created), sum/fee as reported,
             utxo2/stxo2 = the stored unspent/spent sets after the call.
    TLC judges every event with the relation of BtcCoins (Selected + the set transition) and evaluates PropC26's
    clauses on the recorded run.  A non-conforming event is printed as <<"BAD", line, reason>> and the monitor
